@@ -248,8 +248,8 @@ func (vc *FnVC) resolveLocal(e *Env, name string) (*Val, error) {
 		if obj.Name() != name {
 			continue
 		}
-		if v, isVar := obj.(*types.Var); !isVar || v.IsField() {
-			continue
+		if v, isVar := obj.(*types.Var); !isVar || v.IsField() || (v.Pkg() != nil && v.Parent() == v.Pkg().Scope()) {
+			continue // fields and package-level variables are not locals
 		}
 		for i := range bs {
 			b := &bs[i]
